@@ -656,10 +656,10 @@ func (n *c13Node) close() {
 // what is observed of the real hand-over
 type c13HandObs struct {
 	sres    uint64 // 0 SwitchToConsensus returned, 1 panicked, 2 not called, 3 NewState at node start panicked
-	h1      int64  // LastBlockHeight of the state handed over
+	hs      int64  // LastBlockHeight of the state handed over (-1 = no call)
 	skipWAL bool
 	height  int64  // RoundState.Height afterwards (-1 = not observed)
-	lcc     uint64 // RoundState.LastCommit: 0 nil, 1 equals the stored seen commit of h1, 2 other, 3 not observed
+	lcc     uint64 // RoundState.LastCommit: 0 nil, 1 equals the seen commit stored for the top block of the store, 2 other, 3 not observed
 	running bool   // consensus state running, WaitSync() false
 	msg     string
 }
@@ -681,7 +681,7 @@ func c13SameCommit(a, b *types.Commit) bool {
 
 // observe: the consensus state after the call `res` of SwitchToConsensus
 func (n *c13Node) observe(res *c13Switch) (o c13HandObs) {
-	o = c13HandObs{sres: 2, height: -1, lcc: 3}
+	o = c13HandObs{sres: 2, hs: -1, height: -1, lcc: 3}
 	if !n.startOK {
 		o.sres = 3
 		return o
@@ -689,7 +689,7 @@ func (n *c13Node) observe(res *c13Switch) (o c13HandObs) {
 	if res == nil {
 		return o
 	}
-	o.h1, o.skipWAL = res.state.LastBlockHeight, res.skipWAL
+	o.hs, o.skipWAL = res.state.LastBlockHeight, res.skipWAL
 	if res.panicked != "" {
 		o.sres, o.msg = 1, res.panicked
 		return o
@@ -707,7 +707,7 @@ func (n *c13Node) observe(res *c13Switch) (o c13HandObs) {
 		switch {
 		case rs.LastCommit == nil:
 			o.lcc = 0
-		case c13SameCommit(rs.LastCommit.MakeCommit(), n.ex.blockStore.LoadSeenCommit(o.h1)):
+		case c13SameCommit(rs.LastCommit.MakeCommit(), n.ex.blockStore.LoadSeenCommit(n.ex.blockStore.Height())):
 			o.lcc = 1
 		default:
 			o.lcc = 2
@@ -1075,7 +1075,7 @@ func TestVerifC13Step(t *testing.T) {
 		r1p, r1b := node.reqView(fh)
 		r2p, r2b := node.reqView(fh + 1)
 		ho := uint64(2)
-		hob := c13HandObs{sres: 2, height: -1, lcc: 3}
+		hob := c13HandObs{sres: 2, hs: -1, height: -1, lcc: 3}
 		if !node.startOK {
 			hob.sres = 3
 		}
@@ -1213,7 +1213,7 @@ type c13ScenResult struct {
 	journal   []string
 	hob       c13HandObs
 	startOK   bool
-	h0, h1    int64      // State.LastBlockHeight at node start / handed over (or saved, when never switched)
+	h0, h1    int64      // State.LastBlockHeight at node start / of the state the node saved last (= top of its block store)
 	seen0     *c13Commit // how the seen commits stored for h0 / h1 were made (nil: height 0 or unknown)
 	seen1     *c13Commit
 	verified  bool
@@ -1266,7 +1266,10 @@ func c13RunScen(sc c13Scen, r *vg.Rand) *c13ScenResult {
 			if j >= 2 {
 				b := w.second(j-1, w.realCommit(w.mutate("garbage-early", j-1, j-1, r)))
 				node.deliver(rq.p, b)
-				if accepted(b) {
+				// the forged LastCommit is looked at when the block is `second` of a processed
+				// pair (its predecessor is not stored yet) or `first` of one (ValidateBlock; it
+				// is not the top block): otherwise the node never examines this answer
+				if accepted(b) && (j-1 > sc.start || j < top) {
 					used[i] = true
 					res.nbad++
 					res.journal = append(res.journal, fmt.Sprintf("peer %d: block %d with garbage signature in its LastCommit", rq.p.num, rq.height))
@@ -1377,9 +1380,6 @@ LOOP:
 	if st, err := node.ex.stateStore.Load(); err == nil {
 		res.h1 = st.LastBlockHeight
 	}
-	if swres != nil {
-		res.h1 = swres.state.LastBlockHeight
-	}
 	if sc.start > 0 {
 		res.seen0 = w.genuine(sc.start, sc.start)
 	}
@@ -1415,10 +1415,10 @@ func (sc c13Scen) descr(w *c13World, res *c13ScenResult, stream int) string {
 			w.H(ps.base), w.H(ps.height), res.stopped[i], res.used[i]))
 	}
 	return fmt.Sprintf("scenario %s: world %d (powers %v, InitialHeight %d), node starts with the first %d blocks (State.LastBlockHeight %d, consensus.NewState at start ok=%v); %s; responses in PRNG order (stream %d). Bad answers that entered a requester: %v. "+
-		"Observed: stored ids by position %v, SwitchToConsensus called by the blockchain reactor=%v with state.LastBlockHeight=%d skipWAL=%v -> %d (0 returned,1 panicked,2 not called,3 NewState at start panicked) %q, consensus height afterwards %d, LastCommit class %d (0 nil,1 = stored seen commit,2 other,3 n/a), running=%v; "+
+		"Observed: stored ids by position %v, saved State.LastBlockHeight %d, SwitchToConsensus called by the blockchain reactor=%v with state.LastBlockHeight=%d (-1 = no call) skipWAL=%v -> %d (0 returned,1 panicked,2 not called,3 NewState at start panicked) %q, consensus height afterwards %d, LastCommit class %d (0 nil,1 = stored seen commit,2 other,3 n/a), running=%v; "+
 		"consensus.NewState on the result=%d (0 ok,1 panic,2 not run), seen commit of last block class %d, every stored block and seen commit verified by the harness=%v",
 		sc.name, sc.wi, w.powers, w.ih, sc.start, res.h0, res.startOK, strings.Join(pds, "; "), stream, res.journal,
-		res.stored, res.switched, res.h1, res.hob.skipWAL, res.hob.sres, res.hob.msg, res.hob.height, res.hob.lcc, res.hob.running,
+		res.stored, res.h1, res.switched, res.hob.hs, res.hob.skipWAL, res.hob.sres, res.hob.msg, res.hob.height, res.hob.lcc, res.hob.running,
 		res.ho, res.seenClass, res.verified)
 }
 
@@ -1434,7 +1434,20 @@ func (sc c13Scen) scenTerm(res *c13ScenResult) string {
 	if res.hob.sres == 1 || res.hob.sres == 3 { // the real switch failed
 		ho = 1
 	}
-	return vg.App("CScen", vg.L(canon), vg.Z(sc.start), vg.ZL(res.stored), vg.Z(sc.tip), vg.L(pts), vg.Z(res.nbad),
+	// the tip the node can be expected to reach: the top of the honest peers that stayed
+	// connected (sc.tip when their tops are all the same, as in every scenario but
+	// forged-commit-second-only, where the only honest peer above position 2 may be the one
+	// honest supplier a rejected pair costs)
+	tip := int64(0)
+	for i, ps := range sc.peers {
+		if ps.script == 0 && !res.stopped[i] && ps.height > tip {
+			tip = ps.height
+		}
+	}
+	if tip == 0 {
+		tip = sc.tip
+	}
+	return vg.App("CScen", vg.L(canon), vg.Z(sc.start), vg.ZL(res.stored), vg.Z(tip), vg.L(pts), vg.Z(res.nbad),
 		vg.B(res.switched), vg.N(ho), vg.N(res.seenClass))
 }
 
@@ -1453,7 +1466,7 @@ func (sc c13Scen) handTerm(w *c13World, res *c13ScenResult) string {
 	}
 	return vg.App("CHand", w.valsTerm(), vg.Z(1), vg.Z(w.ih), vg.Z(res.h0), vg.Z(res.h1),
 		c13CommitOpt(res.seen0), c13CommitOpt(res.seen1), vg.B(res.verified),
-		vg.Tup(vg.N(start), vg.N(sres), vg.Z(res.hob.height), vg.N(res.hob.lcc), vg.B(res.hob.running), vg.N(res.ho)))
+		vg.Tup(vg.N(start), vg.N(sres), vg.Z(res.hob.hs), vg.Z(res.hob.height), vg.N(res.hob.lcc), vg.B(res.hob.running), vg.N(res.ho)))
 }
 
 // runs the wanted scenarios (par at a time; each mostly waits for the reactor's 1 s switch ticker)
